@@ -449,7 +449,7 @@ var familyDefs = []family{
 	{"F1-revert", []int{0, 1, 2}, []string{"add1(X)", "nonce1(X)", "codeB(X)", "st(X,0,2)", "st(X,0,0)", "suicide(X)", "create(X)", "logrefund", "snap", "revN", "revO"}},
 	{"F2a-root", []int{0, 1, 2}, []string{"add1(X)", "setbal0(X)", "nonce1(X)", "nonce0(X)", "codeA(X)", "st(X,0,1)", "st(X,0,0)", "st(X,1,2)", "fin(true)", "fin(false)", "commit(false)"}},
 	{"F2b-persist", []int{0, 2}, []string{"add1(X)", "setbal0(X)", "codeB(X)", "st(X,0,2)", "st(X,0,0)", "fin(true)", "commit(true)", "commit(false)", "copy", "reopen-disk(true)", "reopen-cached(false)", "readall"}},
-	{"F3-destruct", []int{0, 1, 2}, []string{"suicide(X)", "create(X)", "add0(X)", "add1(X)", "sub1(X)", "st(X,0,1)", "snap", "revN", "fin(true)", "fin(false)"}},
+	{"F3-destruct", []int{0, 1, 2}, []string{"suicide(X)", "create(X)", "add0(X)", "add1(X)", "sub1(X)", "st(X,0,1)", "snap", "revN", "fin(true)", "fin(false)", "commit(true)"}},
 	{"F6-values", []int{0, 2}, []string{"st(X,1,127)", "st(X,1,128)", "st(X,1,256)", "st(X,1,full)", "st(X,1,2)", "st(X,0,0)", "fin(true)", "commit(false)", "copy", "reopen-disk(true)"}},
 	{"F5-copy", []int{0}, []string{"add1(X)", "logrefund", "logB", "snap", "revN", "fork", "copy"}},
 	{"F4-two", []int{0}, []string{"add1(A1)", "add1(F)", "st(A1,1,2)", "st(F,0,2)", "suicide(A1)", "suicide(F)", "snap", "revN", "fin(true)", "reopen-disk(true)"}},
@@ -677,6 +677,9 @@ func evaluate(seq []op) *fail {
 	if want := refStateRoot(out.closing); out.closRoot != want {
 		return &fail{"root", "closing-after-" + last, fmt.Sprintf("IntermediateRoot(true) returned %x, specification root of the content read back is %x; content %+v", out.closRoot, want, out.closing.Accts)}
 	}
+	if f := rebuildCheck(seq); f != nil {
+		return f
+	}
 	twin, what := erase(seq)
 	if twin == nil {
 		return nil
@@ -707,6 +710,79 @@ func evaluate(seq []op) *fail {
 	}
 	if out.closRoot != tout.closRoot {
 		return &fail{what + "/after-finalise", "root", fmt.Sprintf("closing root %x vs twin %x (%s)", out.closRoot, tout.closRoot, seqString(twin))}
+	}
+	return nil
+}
+
+// rebuildCheck is the history-independence oracle in its differential form. When the sequence is
+// S . c . o with c a commit (all write-back caches flushed, journal empty), a second state is built
+// from nothing but the content read back after c (setters on an empty database, then Commit(false)). If
+// it reads back identically, applying o to both must again read back identically, also after a closing
+// IntermediateRoot(true): what an operation does may depend on the content, never on how it came about.
+func rebuildCheck(seq []op) (f *fail) {
+	n := len(seq)
+	if n < 2 || (seq[n-2].kind != kCommit && seq[n-2].kind != kReopen) || seq[n-1].kind == kRevNewest || seq[n-1].kind == kRevOldest {
+		return nil
+	}
+	defer func() {
+		if r := recover(); r != nil {
+			f = &fail{"rebuild/panic", "last-op", fmt.Sprintf("%v", r)}
+		}
+	}()
+	w := newWorld()
+	for _, o := range seq[:n-1] {
+		if o.fn(w) != nil {
+			return nil
+		}
+	}
+	d1 := takeDump(w.st)
+	c := &world{disk: aquadb.NewMemDatabase()}
+	c.sdb = state.NewDatabase(c.disk)
+	var err error
+	if c.st, err = state.New(common.Hash{}, c.sdb); err != nil {
+		return nil
+	}
+	for i, a := range d1.Accts {
+		if !a.Exist {
+			continue
+		}
+		c.st.CreateAccount(addrs[i])
+		bal, _ := new(big.Int).SetString(a.Balance, 10)
+		c.st.SetBalance(addrs[i], bal)
+		c.st.SetNonce(addrs[i], a.Nonce)
+		if a.Code != "" {
+			c.st.SetCode(addrs[i], []byte(a.Code))
+		}
+		for j, v := range a.Slots {
+			if v != (common.Hash{}) {
+				c.st.SetState(addrs[i], slots[j], v)
+			}
+		}
+	}
+	if _, err := c.st.Commit(false); err != nil {
+		return nil
+	}
+	c.st.Prepare(thash, bhash, 0)
+	if field, _ := d1.diff(takeDump(c.st), false); field != "" && field != "refund" {
+		return nil // the content cannot be rebuilt by setters (not comparable)
+	}
+	last := seq[n-1]
+	e1, e2 := last.fn(w), last.fn(c)
+	if (e1 == nil) != (e2 == nil) {
+		return &fail{"rebuild", "last-op-error", fmt.Sprintf("%s after %s: error %v on the history, %v on the state rebuilt from its content", last.name, seqString(seq[:n-1]), e1, e2)}
+	}
+	if e1 != nil {
+		return nil
+	}
+	if field, msg := takeDump(w.st).diff(takeDump(c.st), false); field != "" && field != "refund" {
+		return &fail{"rebuild", field, fmt.Sprintf("%s applied after %s and applied to a state rebuilt from the content read back there give different content: %s (history vs rebuilt)", last.name, seqString(seq[:n-1]), msg)}
+	}
+	r1, r2 := w.st.IntermediateRoot(true), c.st.IntermediateRoot(true)
+	if field, msg := takeDump(w.st).diff(takeDump(c.st), false); field != "" && field != "refund" {
+		return &fail{"rebuild/after-finalise", field, fmt.Sprintf("%s after %s vs the same on the rebuilt state, after a closing IntermediateRoot(true): %s", last.name, seqString(seq[:n-1]), msg)}
+	}
+	if r1 != r2 {
+		return &fail{"rebuild/after-finalise", "root", fmt.Sprintf("%s after %s: closing root %x, on the state rebuilt from the same content %x", last.name, seqString(seq[:n-1]), r1[:4], r2[:4])}
 	}
 	return nil
 }
